@@ -59,7 +59,8 @@ def run():
     Rs = renderers(m)
     n = 2500 if ck.tier == 'quick' else 60000
     recs, meta = [], []
-    for i, t in enumerate(inputs.texts(ck.rng, n)):
+    from . import docgen
+    for i, t in enumerate(inputs.texts(ck.rng, n) + docgen.texts(ck, 400 if ck.tier == 'quick' else 10000)):
         if len(t) > 1500:
             continue
         for j, R in enumerate(Rs):
